@@ -35,6 +35,7 @@ Definition run14_polyline (f : field) (mu0 : float) (o p1 p2 : float * float * f
   l14_code (Z.of_nat (fst (polyline_H_br NumF o p1 p2 cur))) :: l14_vec (polyline_BH NumF f mu0 o p1 p2 cur).
 
 (* current_vertices_field("H", observers, current, vertices), one row: sum over the segments *)
-Definition run14_polysum (cur : float) (vs : list (float * float * float)) (o : float * float * float)
-  : list float :=
-  l14_code (Z.of_nat (length vs)) :: l14_vec (poly_sum_gen NumF cur vs o).
+Definition run14_polysum (f : field) (mu0 cur : float) (vs : list (float * float * float))
+                         (o : float * float * float) : list float :=
+  l14_code (Z.of_nat (length vs)) ::
+  l14_vec (match f with FH => poly_sum_gen NumF cur vs o | FB => poly_sumB_gen NumF mu0 cur vs o end).
